@@ -132,7 +132,7 @@ func checkC18Seq(job *Job, res *Result) {
 	n := 0
 	for _, name := range names {
 		switch name {
-		case "EVAL", "EVALSHA", "EVALRO", "EVALROSHA", "EVALNA", "EVALNASHA", "FOLLOW", "REPLCONF", "AOFSHRINK", "TIMEOUT", "AUTH", "OUTPUT", "CLIENT", "PING", "ECHO":
+		case "EVAL", "EVALSHA", "EVALRO", "EVALROSHA", "EVALNA", "EVALNASHA", "FOLLOW", "SLAVEOF", "REPLCONF", "AOFSHRINK", "TIMEOUT", "AUTH", "OUTPUT", "CLIENT", "PING", "ECHO":
 			continue // not callable / not dataset commands inside scripts
 		}
 		for si, shape := range cat[name] {
